@@ -177,7 +177,7 @@ def run(ctx):
     ctx.assumptions += ['callables, third-party (numpy etc.) objects and objects that are themselves hints are outside the model',
                         'self-referential containers cannot be expressed by the tree-shaped object universe: they are decided '
                         'on the implementation only', 'list subclasses subscripted as hints (UserList[int]) are outside the model']
-    regenerate(ctx)
+    ctx.safe_regenerate(regenerate)
     proof_err = None
     try:
         ctx.prove(PROP, extra_targets=['theories/C20/Corr.vo'])
@@ -277,7 +277,7 @@ def run(ctx):
 def replay(ctx, path):
     with open(path) as f:
         body = json.load(f)
-    regenerate(ctx)
+    ctx.safe_regenerate(regenerate)
     r = body['record']
     if 'value' in r:
         print(json.dumps(run_impl('c20_impl.py', {'cases': [{'value': r['value']}]})[0]))
